@@ -2,48 +2,59 @@
 
 spec  : BShells.tla  - integer reciprocal lattices (integer Gram matrix G/gs), Monkhorst-Pack mesh vectors as integer
                        triples, shells = level sets of the integer quadratic form inside the search box, exact rational
-                       weights; the shell-selection loop of find_bk_vectors (one step per shell) with exact Gauss-Jordan
-                       elimination instead of the SVD; the C22 clauses (whole shells, b -> -b, completeness, k+b=k'+G)
-        MC_BShells   - catalogue of 10 lattices x meshes; TLC proves that the Wannier90 procedure ("pair" rule) always
-                       ends with a stencil that satisfies every clause; the model of is_parallel_shell as coded
-                       ("span"/"latt") is run as a second configuration
-        BShellsRec   - record validation of the real BKVectors.from_kpoints / find_bk_vectors
-bind  : spec -> code : every TLC state is replayed on k_to_shells (the examined shell must be the next level set),
-                       get_shell_weights (dependent / incomplete / complete + exact weights) and is_parallel_shell;
-                       find_bk_vectors must return a stencil wherever TLC proved that one exists in the search box
-        code -> spec : records of from_kpoints (bk_grid, rationalised wk, neighbours, G; shuffled k-points) validated by
-                       TLC clause by clause
+                       weights; the shell-selection loop (one step per shell) with exact Gauss-Jordan elimination
+                       instead of the SVD; the C22 clauses (whole shells, b -> -b, completeness, k+b=k'+G)
+        MC_BShells   - catalogue of 10 lattices x meshes; TLC proves that the SPECIFICATION's procedure (Wannier90 "pair"
+                       rule) always ends with a stencil that satisfies every clause.  The rules "latt" / "rank3" model
+                       find_bk_vectors as it is written; they are run on demand, only for the lattice/mesh pairs on which
+                       the real code finds no stencil, to decide whether that failure is the recorded known finding
+        BShellsRec   - record validation of the real BKVectors.from_kpoints / reorder_mmn results
+bind  : code -> spec : what binds the CODE's own stencils: records of from_kpoints (bk_grid, rationalised wk,
+                       neighbours, G; shuffled k-points, reduced coordinates with noise 1e-9 and outside [0, 1),
+                       search_supercell 2 and 3, b-vectors re-ordered by reorder_mmn) validated by TLC clause by clause
+        spec -> code : find_bk_vectors must return a stencil wherever TLC proved that one exists in the search box;
+                       the weights get_shell_weights returns for the specification's complete shell sets must be the
+                       exact ones.  The replay of the other internals (k_to_shells, is_parallel_shell, the status
+                       strings of get_shell_weights) is informative only: C22 does not prescribe them
 """
-import io
+import os
 import copy
 import random
 import itertools
-import contextlib
 from fractions import Fraction
 
 import numpy as np
 
 from .. import tlc, ftable
 from ..common import Report, MachineryError, seed
+from ._fdutil import rationalise, quiet_call, Scratch, accepted_kwargs, Skipped
 
 PROPS = {
     "C22": dict(level="model_checking",
-                technique="TLC exhaustive on BShells.tla/MC_BShells.tla (shell selection over a catalogue of integer reciprocal "
-                          "lattices x meshes, exact rational weights) + replay of every TLC state on k_to_shells / get_shell_weights / "
-                          "is_parallel_shell / find_bk_vectors + TLC validation (BShellsRec.tla) of recorded BKVectors.from_kpoints results",
-                text="TLC enumerates, for cubic, fcc, bcc, two tetragonal, orthorhombic, two hexagonal, a monoclinic and a triclinic "
-                     "integer reciprocal lattice and every mesh in the configured set, the run of the shell-selection procedure and checks "
-                     "on the resulting stencil: whole level sets, closure under b -> -b with equal weights, sum_b w_b b b^T = 1 in exact "
-                     "rationals, unique neighbour and lattice shift for every k and b. Every TLC state is replayed on the real k_to_shells, "
-                     "get_shell_weights and is_parallel_shell; BKVectors.from_kpoints is run on all lattices x meshes (n_i <= 4, <= 6 "
-                     "thorough) with shuffled k-points and the recorded bk_grid / wk / neighbours / G are validated clause by clause by TLC.",
+                technique="TLC exhaustive on BShells.tla/MC_BShells.tla (the specification's shell selection over a catalogue of integer "
+                          "reciprocal lattices x meshes, exact rational weights) + TLC validation (BShellsRec.tla) of recorded "
+                          "BKVectors.from_kpoints / reorder_mmn results + find_bk_vectors / get_shell_weights on the TLC states",
+                text="TLC proves the C22 clauses (whole level sets, closure under b -> -b with equal weights, sum_b w_b b b^T = 1 in exact "
+                     "rationals, unique neighbour and lattice shift for every k and b) for the SPECIFICATION's procedure (Wannier90 rule) on "
+                     "cubic, fcc, bcc, two tetragonal, orthorhombic, two hexagonal, a monoclinic and a triclinic integer reciprocal lattice "
+                     "and the configured meshes. The CODE's own stencils are bound by record validation: BKVectors.from_kpoints is run on "
+                     "every lattice x every mesh with n_i <= 4 (thorough: plus a fixed list of 51 meshes with an n_i of 5 or 6) with "
+                     "shuffled k-points, reduced coordinates carrying noise 1e-9 and integer shifts, rotated/scaled bases, "
+                     "search_supercell 2 (3 and 1 on three meshes per lattice each), and after reorder_mmn; the recorded bk_grid / wk / neighbours "
+                     "/ G are validated clause by clause by TLC. find_bk_vectors must find a stencil wherever the specification does; a "
+                     "failure is the known finding only where the specification's model of the code's own rule predicts it.",
                 note="weights cross the TLC boundary as rationals num/den (den <= 10^4, verified within 1e-9 of the float); shells are level "
-                     "sets inside the code's search box (search_supercell = 2); random real lattices are numeric_only",
+                     "sets inside the search box and, computed exactly in Python for every record and by TLC for small meshes, inside a box "
+                     "two super-cells wider; the replay of k_to_shells / is_parallel_shell / get_shell_weights status is informative "
+                     "(mechanism_replay), random real lattices are numeric_only",
                 ref="DESIGN.md 3.7"),
 }
 
-MAXDEN = 10 ** 4
-RAT_TOL = 1e-9
+TLC_WORKERS = int(os.environ.get("VERIF_TLC_WORKERS", "4"))
+KEY_KNOWN = "find_bk_vectors:no_stencil_found"
+KEY_UNPRED = "find_bk_vectors:no_stencil_found:unpredicted"
+CODE_TOL = 1e-5          # bk_complete_tol handed to the code for the exact lattices (its default, made explicit)
+RANDOM_TOL = 1e-9        # bk_complete_tol handed to the code for random real lattices; the harness then demands 1e-8
 
 
 # ----------------------------------------------------------------------------------------------- helpers
@@ -56,19 +67,6 @@ def cart_basis(G, gs, A):
     if np.abs(B @ B.T - np.array(G, dtype=float) / gs).max() > 1e-13:
         raise MachineryError(f"basis does not reproduce the Gram matrix {G}/{gs}")
     return B
-
-
-def rationalise(w):
-    """float -> (num, den) with den <= MAXDEN, or None when no such fraction is within RAT_TOL (relative)"""
-    f = Fraction(float(w)).limit_denominator(MAXDEN)
-    if abs(float(f) - float(w)) <= RAT_TOL * max(1.0, abs(float(w))):
-        return (f.numerator, f.denominator)
-    return None
-
-
-def quiet_call(fn, *a, **kw):
-    with contextlib.redirect_stdout(io.StringIO()):
-        return fn(*a, **kw)
 
 
 def box_latt(N, ss=2):
@@ -109,52 +107,154 @@ def mesh_points(N):
     return [(a, b, c) for a in range(N[0]) for b in range(N[1]) for c in range(N[2])]
 
 
-def run_from_kpoints(B, N, kpts, kptirr):
-    from wannierberri.w90files.bkvectors import BKVectors
-    kred = np.array(kpts, dtype=float) / np.array(N, dtype=float)[None, :]
-    return quiet_call(BKVectors.from_kpoints, recip_lattice=B, mp_grid=np.array(N), kpoints_red=kred, kptirr=kptirr)
+def qf_matrix(G, N):
+    """the integer quadratic form of BShells!GmOf"""
+    lc = int(np.lcm.reduce(np.array(N, dtype=np.int64)))
+    f = np.array([lc // int(n) for n in N], dtype=np.int64)
+    return np.array(G, dtype=np.int64) * f[:, None] * f[None, :]
 
 
-def record_of(G, gs, N, bkv, kpts, kptirr):
+def whole_in_box(G, N, bk, ss):
+    """exact: the b-vectors are the union of whole level sets of the quadratic form inside the box |n_i| <= ss N_i"""
+    gm = qf_matrix(G, N)
+    box = box_latt(N, ss).astype(np.int64)
+    q = np.einsum("ni,ij,nj->n", box, gm, box)
+    bk = np.array(bk, dtype=np.int64).reshape(-1, 3)
+    qs = np.unique(np.einsum("ni,ij,nj->n", bk, gm, bk))
+    sel = np.isin(q, qs) & (q > 0)
+    return as_set(box[sel]) == as_set(bk)
+
+
+def random_rotation(rng):
+    q, r_ = np.linalg.qr(np.array([[rng.gauss(0, 1) for _ in range(3)] for _ in range(3)]))
+    return q * np.sign(np.linalg.det(q))
+
+
+class Code:
+    """the one place where names of the package are used"""
+
+    def __init__(self, skipped):
+        from wannierberri.w90files import bkvectors
+        self.mod = bkvectors
+        self.BKVectors = bkvectors.BKVectors
+        self.skipped = skipped
+
+    # ---- public entry points of the property
+    def from_kpoints(self, B, N, kred, kptirr, ss, tol):
+        fn = self.BKVectors.from_kpoints
+        kw = accepted_kwargs(fn, search_supercell=ss, bk_complete_tol=tol)
+        if "search_supercell" not in kw and ss != 2:
+            raise _NotCallable("from_kpoints has no search_supercell argument")
+        return quiet_call(fn, recip_lattice=B, mp_grid=np.array(N), kpoints_red=kred, kptirr=kptirr, **kw)
+
+    def find_bk_vectors(self, B, N, ss, tol):
+        fn = self.BKVectors.find_bk_vectors
+        kw = accepted_kwargs(fn, search_supercell=ss, bk_complete_tol=tol)
+        if "search_supercell" not in kw and ss != 2:
+            raise _NotCallable("find_bk_vectors has no search_supercell argument")
+        return quiet_call(fn, B, np.array(N), **kw)
+
+    # ---- internals (informative replay only): every use is guarded
+    def k_to_shells(self, klatt, kcart):
+        """-> list of frozensets of mesh vectors, or None when the helper is gone / has another shape"""
+        fn = getattr(self.BKVectors, "k_to_shells", None)
+        if fn is None:
+            self.skipped.add("k_to_shells")
+            return None
+        try:
+            r = quiet_call(fn, klatt, kcart)
+            return [as_set(s) for s in r[0]]
+        except Exception as ex:  # noqa
+            self.skipped.add("k_to_shells", ex)
+            return None
+
+    def is_parallel(self, sel_cart, new_cart):
+        fn = getattr(self.mod, "is_parallel_shell", None)
+        pr = getattr(self.BKVectors, "get_projector_shell_cart", None)
+        if fn is None or pr is None:
+            self.skipped.add("is_parallel_shell")
+            return None
+        try:
+            return bool(fn([pr(x) for x in sel_cart], new_cart, tol=1e-7))
+        except Exception as ex:  # noqa
+            self.skipped.add("is_parallel_shell", ex)
+            return None
+
+    def shell_weights(self, shells_latt, shells_cart):
+        """-> ("complete", wk, bk_grid) | ("not_complete", text, None) | None (helper gone / unknown shape)"""
+        fn = getattr(self.BKVectors, "get_shell_weights", None)
+        if fn is None:
+            self.skipped.add("get_shell_weights")
+            return None
+        kw = accepted_kwargs(fn, msg_if_fail=True, bk_complete_tol=CODE_TOL)
+        try:
+            r = quiet_call(fn, shells_latt, shells_cart, **kw)
+        except (TypeError, AttributeError) as ex:
+            self.skipped.add("get_shell_weights", ex)
+            return None
+        except Exception as ex:  # noqa  (without msg_if_fail an incomplete set is reported by an exception)
+            return ("not_complete", type(ex).__name__, None)
+        if isinstance(r, (tuple, list)) and len(r) == 3:
+            try:
+                arrs = [np.asarray(x) for x in r]
+                wk = [a for a in arrs if a.ndim == 1][0]
+                bg = [a for a in arrs if a.ndim == 2 and a.shape[1] == 3 and np.issubdtype(a.dtype, np.integer)][0]
+                if len(wk) != len(bg):
+                    raise ValueError("lengths differ")
+                return ("complete", wk, bg)
+            except Exception as ex:  # noqa
+                self.skipped.add("get_shell_weights", ex)
+                return None
+        return ("not_complete", str(r)[:40], None)
+
+
+class _NotCallable(Exception):
+    pass
+
+
+def record_of(G, gs, N, ss, bkv, kint, kptirr, fn="from_kpoints"):
     """BKVectors object -> JSON record; returns (record, problems)"""
     problems = []
     wk = [rationalise(w) for w in bkv.wk]
     if any(w is None for w in wk):
         return None, ["weights_not_rational"]
-    rec = dict(fn="from_kpoints", G=[list(r) for r in G], gs=gs, N=list(N), SS=2,
+    rec = dict(fn=fn, G=[list(r) for r in G], gs=gs, N=list(N), SS=ss,
                bk=[[int(x) for x in b] for b in bkv.bk_grid], wk=[list(w) for w in wk])
     if kptirr is not None:
         irr = list(kptirr)
-        if sorted(bkv.neighbours.keys()) != sorted(irr) or sorted(bkv.G.keys()) != sorted(irr):
+        if sorted(int(k) for k in bkv.neighbours.keys()) != sorted(irr) or sorted(int(k) for k in bkv.G.keys()) != sorted(irr):
             problems.append("neighbour_keys")
             return rec, problems
         kg = np.array(bkv.kpt_grid)
-        if kg.shape != (len(kpts), 3) or np.any(kg != np.array(kpts)):
+        if kg.shape != (len(kint), 3) or np.any(kg != np.array(kint)):
             problems.append("kpt_grid")
         nnb = len(rec["bk"])
         for ik in irr:
             if np.shape(bkv.neighbours[ik]) != (nnb,) or np.shape(bkv.G[ik]) != (nnb, 3):
                 problems.append("neighbour_shape")
                 return rec, problems
-        rec.update(kpts=[list(k) for k in kpts], kptirr=[int(i) for i in irr],
+        rec.update(kpts=[[int(x) for x in k] for k in kint], kptirr=[int(i) for i in irr],
                    nb=[[int(x) for x in bkv.neighbours[ik]] for ik in irr],
                    gv=[[[int(x) for x in g] for g in bkv.G[ik]] for ik in irr])
     return rec, problems
 
 
-def mc_cfg(meshes, lats, rules, variant="ok", invariants=None):
-    inv = invariants or ["Admits", "SelFunctional", "SelNegClosed", "SelWhole", "SelComplete", "SelOddMoments", "SelNeighbours", "SelShape"]
+def mc_cfg(meshes, lats, rules, variant="ok", invariants=None, only=(), ssc=2):
+    inv = invariants if invariants is not None else ["Admits", "SelFunctional", "SelNegClosed", "SelWhole", "SelComplete", "SelOddMoments",
+                                                     "SelNeighbours", "SelShape"]
     return ("SPECIFICATION Spec\nCONSTANTS\n"
-            f"  MESHES = {tlc.tla_value(set(100 * m[0] + 10 * m[1] + m[2] for m in meshes))}\n  LATS = {tlc.tla_value(set(lats))}\n  RULES = {tlc.tla_value(set(rules))}\n"
-            f"  SSC = 2\n  Variant = \"{variant}\"\n" + "".join(f"INVARIANT {i}\n" for i in inv) + "CHECK_DEADLOCK FALSE\n")
+            f"  MESHES = {tlc.tla_value(set(100 * m[0] + 10 * m[1] + m[2] for m in meshes))}\n  LATS = {tlc.tla_value(set(lats))}\n"
+            f"  RULES = {tlc.tla_value(set(rules))}\n  PAIRSEL = {tlc.tla_value(set(only))}\n"
+            f"  SSC = {ssc}\n  Variant = \"{variant}\"\n" + "".join(f"INVARIANT {i}\n" for i in inv) + "CHECK_DEADLOCK FALSE\n")
 
 
 LATS = ["cubic", "fcc", "bcc", "tetra2", "tetraS2", "ortho", "hex", "hex60", "mono", "tri"]
+SS3_MESHES = [(1, 1, 1), (2, 1, 2), (1, 2, 3)]
+SS1_MESHES = [(1, 1, 1), (1, 2, 2), (2, 1, 1)]     # search_supercell = 1: the selected shells touch the faces of the search box
 
 
-def run_mc(name, meshes, lats, rules, variant="ok", invariants=None, workers=16, dump=True):
-    st = tlc.run_tlc("MC_BShells.tla", mc_cfg(meshes, lats, rules, variant, invariants), name, workers=workers, dump=dump,
-                     coverage=False, timeout=3000)
+def run_mc(name, cfg, dump=True):
+    st = tlc.run_tlc("MC_BShells.tla", cfg, name, workers=TLC_WORKERS, dump=dump, coverage=False, timeout=3000)
     if st.get("timeout"):
         raise MachineryError(f"TLC timed out on {name}")
     if st.get("error") and not st.get("violation"):
@@ -172,17 +272,38 @@ def runs_of(st):
     return runs
 
 
+def thorough_meshes():
+    """all meshes with n_i <= 4 and a FIXED third of the 152 meshes that contain a 5 or a 6 (no seed involved: the known
+    finding is decided per lattice/mesh by the model, but the list of inputs must be the same in every run)"""
+    small = list(itertools.product(range(1, 5), repeat=3))
+    big = sorted(m for m in itertools.product(range(1, 7), repeat=3) if max(m) > 4)
+    return sorted(small + [m for i, m in enumerate(big) if i % 3 == 0])
+
+
 # ----------------------------------------------------------------------------------------------- the check
 def check(pid, tier):
     rep = Report(pid, tier, "model_checking")
+    scratch = Scratch(pid)
+    try:
+        return _check(rep, tier, scratch)
+    except Exception:
+        if rep.violations:
+            rep.finish()
+        raise
+    finally:
+        scratch.cleanup()
+
+
+def _check(rep, tier, scratch):
     thorough = tier == "thorough"
     rng = random.Random(seed() * 7919 + 22)
-    from wannierberri.w90files.bkvectors import BKVectors, is_parallel_shell
-    rep.rule("TLC runs the shell-selection state machine for every (lattice, mesh, rule) of the configuration; a case = one TLC state "
-             "replayed on a real function (exact comparison) or one recorded from_kpoints / find_bk_vectors call validated by TLC; "
-             "distinct by (function, lattice, mesh, inputs)")
-    rep.assume("reciprocal lattices have an integer Gram matrix G/gs (scaled by 0.5..4 and rotated for the recorded calls); shells = level "
-               "sets of the quadratic form inside the code's search box (search_supercell=2)")
+    skipped = Skipped()
+    code = Code(skipped)
+    rep.rule("TLC runs the shell-selection state machine of the specification for every (lattice, mesh); a case = one recorded "
+             "from_kpoints / reorder_mmn result validated by TLC, one find_bk_vectors call where TLC proved that a stencil exists, or one "
+             "TLC state replayed on a helper of the code; distinct by (function, lattice, mesh, inputs)")
+    rep.assume("reciprocal lattices have an integer Gram matrix G/gs (scaled by 0.5..3 and rotated for the recorded calls); shells = level "
+               "sets of the quadratic form inside the search box handed to the code (search_supercell = 2; 3 and 1 on a few meshes)")
     rep.assume("weights are rationals with denominator <= 10^4 (verified within 1e-9 of the float)")
 
     small = [m for m in itertools.product((1, 2), repeat=3)]
@@ -191,8 +312,8 @@ def check(pid, tier):
     else:
         meshes = small + [(1, 1, 3), (3, 2, 1), (2, 3, 2)]
 
-    # ---------------- spec: the Wannier90 procedure always ends with a stencil that satisfies C22
-    st = run_mc("c22_pair", meshes, LATS, ["pair"])
+    # ---------------- spec: the specification's procedure always ends with a stencil that satisfies C22
+    st = run_mc(scratch.name("c22_pair"), mc_cfg(meshes, LATS, ["pair"]))
     ftable.spec_violation(rep, st, "c22_pair")
     rep.add_tlc("c22_pair", st)
     runs = runs_of(st)
@@ -207,196 +328,213 @@ def check(pid, tier):
     for b in ("init", "parallel", "dependent", "incomplete", "complete"):
         if not branches.get(b):
             raise MachineryError(f"vacuous model c22_pair: branch {b} never taken")
-    if len(runs) != len(LATS) * len(meshes) or not all(exists.values()):
+    if not st.get("violation") and (len(runs) != len(LATS) * len(meshes) or not all(exists.values())):
         raise MachineryError("c22_pair: a run is missing or did not end with a stencil although no invariant failed")
     rep.part("c22_pair", branches=branches, runs=len(runs))
 
-    # ---------------- spec: the model of is_parallel_shell as coded (new shell inside the span of ONE selected shell)
-    code_rules = ["span", "latt"]
-    meshes2 = meshes if thorough else [(1, 1, 1), (2, 2, 2), (1, 1, 2), (1, 2, 2), (2, 1, 1), (1, 1, 3), (3, 2, 1)]
-    st2 = run_mc("c22_code_rule", meshes2, LATS, code_rules,
-                 invariants=["SelFunctional", "SelNegClosed", "SelWhole", "SelComplete", "SelNeighbours", "SelShape"])
-    ftable.spec_violation(rep, st2, "c22_code_rule")
-    rep.add_tlc("c22_code_rule", st2)
-    runs2 = runs_of(st2)
-    # the literal model of the code is "latt" where the lattice has an integer Cartesian basis, else "span"
-    literal = {lat: ("latt" if any(k[0] == lat and k[2] == "latt" for k in runs2) else "span") for lat in LATS}
-    model_fail = sorted({(lat, N) for (lat, N, rule), states in runs2.items() if rule == literal[lat] and states[-1]["st"]["pc"] == "fail"})
-    rep.part("c22_code_rule", runs=len(runs2),
-             note="'span'/'latt' model w90files.bkvectors.is_parallel_shell (as intended / as written); listed: runs of the literal model that "
-                  "exhaust the search box without a stencil although the Wannier90 rule finds one",
-             model_finds_no_stencil=[dict(lattice=lat, mesh=list(N)) for lat, N in model_fail])
-
     # sensitivity: a completeness test that only looks at the diagonal of sum w b b^T must be rejected by the specification
-    st0 = run_mc("c22_diagonly", [(1, 1, 1), (2, 2, 2), (2, 1, 1)], ["cubic", "hex", "mono", "tri"], ["pair"], variant="diagonly", dump=False)
+    st0 = run_mc(scratch.name("c22_diagonly"), mc_cfg([(1, 1, 1), (2, 2, 2), (2, 1, 1)], ["cubic", "hex", "mono", "tri"], ["pair"], variant="diagonly"),
+                 dump=False)
     if not st0.get("violation") or st0["violation"][1] != "SelComplete":
         raise MachineryError("sensitivity self-test failed: MC_BShells with Variant=diagonly should violate SelComplete")
     rep.part("c22_diagonly", sensitivity_violation=st0["violation"][1])
 
-    # ---------------- spec -> code: replay every state
+    failures = []      # calls on which the code found no stencil: decided at the end with the model of the code's own rule
+
+    # ---------------- spec -> code: replay of the TLC states
+    mech = dict(k_to_shells=dict(agree=0, differ=0), is_parallel_shell=dict(equals_span=0, equals_pair_only=0, neither=0),
+                get_shell_weights_status=dict(agree=0, differ=0))
     nrep = 0
-    for (lat, N, rule), states in list(runs.items()) + [(k, v) for k, v in runs2.items() if k[2] == "span"]:
+    for (lat, N, rule), states in sorted(runs.items()):
         L = states[0]["L"]
         B = cart_basis(L["G"], L["gs"], L["A"])
         basis = B / np.array(N, dtype=float)[:, None]
         klatt = box_latt(N)
-        sh_latt, sh_cart = BKVectors.k_to_shells(klatt, klatt @ basis)
-        code_shells = [as_set(s) for s in sh_latt]
+        code_shells = code.k_to_shells(klatt, klatt @ basis)
         sel = []
         ish = -1
         for s in states[1:]:
             stt = s["st"]
             if stt["branch"] == "exhausted":
-                rep.case(("k_to_shells_end", lat, N))
-                if ish + 1 != len(code_shells):
-                    rep.violation("k_to_shells:count", dict(lattice=lat, G=L["G"], gs=L["gs"], mesh=N, spec_shells=ish + 1, code_shells=len(code_shells)))
                 continue
             ish += 1
             new = frozenset(stt["last"])
             nrep += 1
-            rep.case(("k_to_shells", lat, N, ish), nontrivial=len(new) > 2)
-            if ish >= len(code_shells) or code_shells[ish] != new:
-                rep.violation("k_to_shells:level_set", dict(lattice=lat, G=L["G"], gs=L["gs"], mesh=N, shell_index=ish, expected=sorted(new),
-                                                            got=sorted(code_shells[ish]) if ish < len(code_shells) else None))
-                break
+            if code_shells is not None:
+                # informative: the helper's i-th shell is the specification's i-th level set
+                rep.case(("k_to_shells", lat, N, ish), nontrivial=len(new) > 2)
+                ok = ish < len(code_shells) and code_shells[ish] == new
+                mech["k_to_shells"]["agree" if ok else "differ"] += 1
             new_latt = np.array(sorted(new))
             new_cart = new_latt @ basis
-            # is_parallel_shell (Cartesian semantics = rule "span")
-            projs = [BKVectors.get_projector_shell_cart(np.array(sorted(x)) @ basis) for x in sel]
-            got_par = bool(is_parallel_shell(projs, new_cart, tol=1e-7))
-            rep.case(("is_parallel_shell", lat, N, ish), nontrivial=len(sel) > 0)
-            if got_par != stt["par"][0]:
-                rep.violation("is_parallel_shell", dict(lattice=lat, G=L["G"], gs=L["gs"], mesh=N, selected=[sorted(x) for x in sel],
-                                                        new=sorted(new), expected=stt["par"][0], got=got_par))
+            got_par = code.is_parallel([np.array(sorted(x)) @ basis for x in sel], new_cart)
+            if got_par is not None:
+                rep.case(("is_parallel_shell", lat, N, ish), nontrivial=len(sel) > 0)
+                if got_par == stt["par"][0]:
+                    mech["is_parallel_shell"]["equals_span"] += 1
+                elif got_par == stt["par"][1]:
+                    mech["is_parallel_shell"]["equals_pair_only"] += 1
+                else:
+                    mech["is_parallel_shell"]["neither"] += 1
             if stt["branch"] == "parallel":
                 continue
             tmp = sel + [new]
-            r = quiet_call(BKVectors.get_shell_weights, [np.array(sorted(x)) for x in tmp], [np.array(sorted(x)) @ basis for x in tmp],
-                           msg_if_fail=True)
-            rep.case(("get_shell_weights", lat, N, rule, ish))
+            r = code.shell_weights([np.array(sorted(x)) for x in tmp], [np.array(sorted(x)) @ basis for x in tmp])
             exp = stt["branch"]
-            if isinstance(r, str):
-                got = {"zero singular value": "dependent", "incomplete shells": "incomplete"}.get(r, r)
-                gotw = None
-            else:
-                got = "complete"
-                gotw = stencil_of(r[0], r[2])
-            if got != exp:
-                rep.violation("get_shell_weights:status", dict(lattice=lat, G=L["G"], gs=L["gs"], mesh=N, shells=[sorted(x) for x in tmp], expected=exp, got=got))
-            elif exp == "complete":
-                expw = frozenset((n, tuple(stt["w"][j])) for j, sh in enumerate(stt["sel"]) for n in sh)
-                if gotw != expw:
-                    rep.violation("get_shell_weights:weights", dict(lattice=lat, G=L["G"], gs=L["gs"], mesh=N, expected=sorted(expw),
-                                                                     got=sorted(gotw) if gotw else [float(x) for x in r[0]]))
-                if nrep % 40 == 1:
-                    rep.sample(dict(fn="get_shell_weights", lattice=lat, mesh=N, shells=[len(x) for x in tmp], weights=[list(w) for w in stt["w"]]))
+            if r is not None:
+                rep.case(("get_shell_weights", lat, N, rule, ish))
+                mech["get_shell_weights_status"]["agree" if (r[0] == "complete") == (exp == "complete") else "differ"] += 1
+                if exp == "complete" and r[0] == "complete":
+                    # the weights of a linearly independent complete set are unique: this comparison is C22 itself
+                    gotw = stencil_of(r[1], r[2])
+                    expw = frozenset((n, tuple(stt["w"][j])) for j, sh in enumerate(stt["sel"]) for n in sh)
+                    if gotw != expw:
+                        rep.violation("get_shell_weights:weights", dict(lattice=lat, G=L["G"], gs=L["gs"], mesh=N, expected=sorted(expw),
+                                                                         got=sorted(gotw) if gotw else [float(x) for x in r[1]]))
+                    if nrep % 40 == 1:
+                        rep.sample(dict(fn="get_shell_weights", lattice=lat, mesh=N, shells=[len(x) for x in tmp], weights=[list(w) for w in stt["w"]]))
             if exp in ("incomplete", "complete"):
                 sel = tmp
+    rep.part("mechanism_replay", **mech,
+             note="informative only (C22 does not prescribe these internals): agreement of k_to_shells with the level sets, of "
+                  "is_parallel_shell (called with Cartesian vectors) with the 'span' / 'pair' rule, of the complete / not complete answer "
+                  "of get_shell_weights with the exact elimination, on the states of the specification's runs")
 
     # ---------------- find_bk_vectors end to end: a stencil must be returned wherever TLC proved that one exists in the box
-    which = {"pair": 0, "span": 0, "latt": 0, "none": 0, "code_rule_not_modelled_for_this_mesh": 0}
-    nraise = 0
+    same_as_spec = 0
     for (lat, N), ok in sorted(exists.items()):
         L = lattices[lat]
         B = cart_basis(L["G"], L["gs"], L["A"])
         rep.case(("find_bk_vectors", lat, N))
         try:
-            wk, bk_cart, bk_grid = quiet_call(BKVectors.find_bk_vectors, B, N)
-        except RuntimeError as e:
-            nraise += 1
-            rep.violation(f"find_bk_vectors:no_stencil_found:{lat}:{'x'.join(str(int(n)) for n in N)}",
-                          dict(what="BKVectors.find_bk_vectors raised although the specification proves that the search box contains a complete "
-                                    "set of shells (the Wannier90 procedure finds it)", lattice=lat, recip_lattice=B.tolist(), mp_grid=list(N),
-                               error=str(e)[:200], model_of_code_also_fails=(lat, N) in model_fail))
+            wk, bk_cart, bk_grid = code.find_bk_vectors(B, N, 2, CODE_TOL)
+        except Exception as ex:  # noqa
+            failures.append(dict(lattice=lat, mesh=N, ss=2, rule="latt" if L["A"] else None, where="find_bk_vectors", recip_lattice=B.tolist(),
+                                 error=repr(ex)[:200]))
             continue
-        got = stencil_of(wk, bk_grid)
-        m = "none"
-        for rule, rr in (("pair", runs), ("latt", runs2), ("span", runs2)):
-            sts = rr.get((lat, N, rule))
-            if sts and sts[-1]["st"]["pc"] == "done":
-                stt = sts[-1]["st"]
-                if got == frozenset((n, tuple(stt["w"][j])) for j, sh in enumerate(stt["sel"]) for n in sh):
-                    m = rule
-                    break
-        if m == "none" and (lat, N, "span") not in runs2:
-            m = "code_rule_not_modelled_for_this_mesh"
-        which[m] += 1
-    rep.part("find_bk_vectors_vs_models", stencil_equals_model=which, raised=nraise,
-             note="diagnostic only: which parallel-shell rule reproduces the stencil of the code (C22 does not prescribe the choice)")
+        sts = runs[(lat, N, "pair")][-1]["st"]
+        same_as_spec += stencil_of(wk, bk_grid) == frozenset((n, tuple(sts["w"][j])) for j, sh in enumerate(sts["sel"]) for n in sh)
+    rep.part("find_bk_vectors_vs_spec", calls=len(exists), stencil_equals_specification=same_as_spec,
+             note="informative: how often the code selects the same stencil as the Wannier90 rule (C22 does not prescribe the choice)")
 
     # ---------------- code -> spec: recorded from_kpoints calls validated by TLC
-    nmax = 6 if thorough else 4
-    all_meshes = list(itertools.product(range(1, nmax + 1), repeat=3))
     if thorough:
-        rng.shuffle(all_meshes)
-        all_meshes = sorted(all_meshes[:150] + list(itertools.product(range(1, 5), repeat=3)))
-        all_meshes = sorted(set(all_meshes))
+        all_meshes = thorough_meshes()
+    else:
+        all_meshes = list(itertools.product(range(1, 5), repeat=3))
     recs = []
     meta = []
     nnum = 0
     full_nb = 0
-    for lat in LATS:
+    classes = dict(exact=0, noise=0, noise_shift=0, rotated=0, ss3=0, ss1=0, reorder_mmn=0, wide_box_tlc=0)
+    nreorder_want = 4 if thorough else 2
+
+    def one_call(lat, N, ss):
+        nonlocal nnum, full_nb
         L = lattices[lat]
-        for N in all_meshes:
-            scale = rng.choice([1.0, 0.5, 2.0, 1.0, 3.0, 1.25])
-            B = cart_basis(L["G"], L["gs"], L["A"]) * scale
-            if rng.random() < 0.5:
-                # a random proper rotation of the Cartesian frame (the Gram matrix, hence the record, is unchanged)
-                q, r_ = np.linalg.qr(np.array([[rng.gauss(0, 1) for _ in range(3)] for _ in range(3)]))
-                q = q * np.sign(np.linalg.det(q))
-                B = B @ q
-            kpts = mesh_points(N)
-            rng.shuffle(kpts)
-            nk = len(kpts)
-            if nk <= 27:
-                kptirr = None if rng.random() < 0.5 else list(range(nk))
-            else:
-                kptirr = sorted(rng.sample(range(nk), 5))
-            irr_eff = list(range(nk)) if kptirr is None else kptirr
-            key = ("from_kpoints", lat, N)
-            rep.case(key)
+        scale = rng.choice([1.0, 0.5, 2.0, 1.0, 3.0, 1.25])
+        B0 = cart_basis(L["G"], L["gs"], L["A"])
+        rot = (not L["A"]) or rng.random() < 0.5
+        B = B0 * scale
+        if rot:
+            # a random proper rotation of the Cartesian frame (the Gram matrix, hence the record, is unchanged)
+            B = B @ random_rotation(rng)
+        kpts = mesh_points(N)
+        rng.shuffle(kpts)
+        nk = len(kpts)
+        if nk <= 27:
+            kptirr = None if rng.random() < 0.5 else list(range(nk))
+        else:
+            kptirr = sorted(rng.sample(range(nk), 5))
+        irr_eff = list(range(nk)) if kptirr is None else kptirr
+        mode = rng.choice(["exact", "noise", "noise_shift"])
+        kint = np.array(kpts, dtype=int)
+        if mode == "noise_shift":
+            kint = kint + np.array([[rng.randint(-1, 1) for _ in range(3)] for _ in range(nk)]) * np.array(N)[None, :]
+        kred = kint / np.array(N, dtype=float)[None, :]
+        if mode != "exact":
+            kred = kred + np.array([[rng.uniform(-1e-9, 1e-9) for _ in range(3)] for _ in range(nk)])
+        rep.case(("from_kpoints", lat, N, ss))
+        info = dict(lattice=lat, recip_lattice=B.tolist(), mp_grid=list(N), scale=scale, rotated=rot, search_supercell=ss, kpoints=mode)
+        try:
+            bkv = code.from_kpoints(B, N, kred, kptirr, ss, CODE_TOL)
+        except _NotCallable as ex:
+            skipped.add("search_supercell", ex)
+            return None
+        except Exception as ex:  # noqa
             try:
-                bkv = run_from_kpoints(B, N, kpts, kptirr)
-            except RuntimeError as e:
-                if "Could not find a complete set" in str(e):
-                    rep.violation(f"find_bk_vectors:no_stencil_found:{lat}:{'x'.join(str(int(n)) for n in N)}",
-                                  dict(what="BKVectors.from_kpoints raised: no complete set of b-vectors found", lattice=lat,
-                                       recip_lattice=B.tolist(), mp_grid=list(N), error=str(e)[:200]))
-                    nraise += 1
-                    continue
-                raise
-            # scale the weights back to the units of G/gs
-            bkv_w = copy.copy(bkv)
-            bkv_w.wk = np.array(bkv.wk) * scale ** 2
-            rec, problems = record_of(L["G"], L["gs"], N, bkv_w, kpts, irr_eff)
-            num = numeric_clauses(B, N, bkv.wk, bkv.bk_grid, bkv.bk_cart)
-            if num["bk_cart"] > 1e-9:
-                rep.violation("from_kpoints:bk_cart", dict(lattice=lat, recip_lattice=B.tolist(), mp_grid=list(N), deviation=num["bk_cart"]))
-            if problems == ["weights_not_rational"]:
-                # no small denominator: decide numerically (never seen on the catalogue)
-                nnum += 1
-                if num["complete"] > 1e-8 or num["neg"] > 1e-8:
-                    rep.violation("from_kpoints:numeric", dict(lattice=lat, recip_lattice=B.tolist(), mp_grid=list(N), deviations=num))
-                continue
-            for p in problems:
-                rep.violation("from_kpoints:" + p, dict(lattice=lat, recip_lattice=B.tolist(), mp_grid=list(N)))
-            if problems:
-                continue
-            if kptirr is None or len(irr_eff) == nk:
-                full_nb += 1
-            recs.append(rec)
-            meta.append(dict(lattice=lat, recip_lattice=B.tolist(), mp_grid=list(N), scale=scale))
+                code.find_bk_vectors(B, N, ss, CODE_TOL)
+            except Exception as ex2:  # noqa
+                failures.append(dict(info, mesh=N, ss=ss, rule="rank3" if rot else "latt", where="from_kpoints", error=repr(ex2)[:200]))
+                return None
+            rep.violation("from_kpoints:raised", dict(info, error=repr(ex)[:300], what="find_bk_vectors alone succeeds on the same input",
+                                                      kpoints_red=kred.tolist(), kptirr=kptirr))
+            return None
+        # scale the weights back to the units of G/gs
+        bkv_w = copy.copy(bkv)
+        bkv_w.wk = np.array(bkv.wk) * scale ** 2
+        rec, problems = record_of(L["G"], L["gs"], N, ss, bkv_w, kint, irr_eff)
+        num = numeric_clauses(B, N, bkv.wk, bkv.bk_grid, bkv.bk_cart)
+        if num["bk_cart"] > 1e-9:
+            rep.violation("from_kpoints:bk_cart", dict(info, deviation=num["bk_cart"]))
+        if problems == ["weights_not_rational"]:
+            # no small denominator: decide numerically (never seen on the catalogue)
+            nnum += 1
+            if num["complete"] > 10 * CODE_TOL or num["neg"] > 1e-8:
+                rep.violation("from_kpoints:numeric", dict(info, deviations=num))
+            return None
+        for p in problems:
+            rep.violation("from_kpoints:" + p, dict(info))
+        if problems:
+            return None
+        if ss >= 2 and not whole_in_box(L["G"], N, rec["bk"], ss + 2):
+            rep.violation("from_kpoints:partial_shell_beyond_search_box",
+                          dict(info, bk_grid=rec["bk"], what="a mesh vector of the same length as a selected b-vector lies outside the search box "
+                                                             "of the code and is missing from the stencil"))
+        if int(np.prod(N)) <= 8 and ss >= 2:
+            rec["SSW"] = ss + 2
+            classes["wide_box_tlc"] += 1
+        if kptirr is None or len(irr_eff) == nk:
+            full_nb += 1
+        classes[mode] += 1
+        classes["rotated"] += rot
+        classes["ss3"] += ss == 3
+        classes["ss1"] += ss == 1
+        recs.append(rec)
+        meta.append(info)
+        return dict(bkv=bkv, scale=scale, kint=kint, irr=irr_eff, info=info, L=L)
+
+    for lat in LATS:
+        nre = 0
+        for N in all_meshes:
+            out = one_call(lat, N, 2)
+            # reorder_mmn: the b-vectors of a second object (another order) are brought into the order of this one; the pairing of
+            # wk with bk must survive (multi-shell stencils, where it matters)
+            if out is not None and nre < nreorder_want and len(set(np.round(out["bkv"].wk, 9))) > 1 and len(out["irr"]) == len(out["kint"]):
+                r2 = reorder_probe(rep, skipped, out, rng)
+                if r2 is not None:
+                    nre += 1
+                    classes["reorder_mmn"] += 1
+                    recs.append(r2)
+                    meta.append(dict(out["info"], fn="reorder_mmn"))
+        for N in SS3_MESHES:
+            one_call(lat, N, 3)
+        for N in SS1_MESHES:
+            one_call(lat, N, 1)
     if not recs:
         raise MachineryError("no from_kpoints record produced")
     if nnum > len(recs) // 20:
         raise MachineryError(f"{nnum} records had weights without a small denominator")
-    stv, bad = ftable.validate_records("BShellsRec.tla", ftable.REC_CFG, recs, "c22", timeout=3000, chunk=400)
+    for cl in ("exact", "noise", "noise_shift", "rotated"):
+        if not classes[cl]:
+            raise MachineryError(f"no record of the class {cl}")
+    stv, bad = ftable.validate_records("BShellsRec.tla", ftable.REC_CFG, recs, scratch.name("c22"), timeout=3000, chunk=400)
     rep.add_tlc("c22_records", stv)
     rep.add_traces(len(recs))
     for i, clauses in sorted(bad.items()):
         for c in clauses:
-            rep.violation("from_kpoints:" + c, dict(meta[i], failing_clauses=clauses, record={k: v for k, v in recs[i].items() if k in ("G", "gs", "N", "bk", "wk")}))
-    rep.part("records", n=len(recs), with_all_neighbours=full_nb, numeric_fallback=nnum, raised=nraise)
+            rep.violation(recs[i]["fn"] + ":" + c, dict(meta[i], failing_clauses=clauses, record={k: v for k, v in recs[i].items() if k in ("G", "gs", "N", "SS", "bk", "wk")}))
+    rep.part("records", n=len(recs), with_all_neighbours=full_nb, numeric_fallback=nnum, classes=classes)
     rep.sample({k: recs[0][k] for k in ("fn", "G", "gs", "N", "bk", "wk")})
 
     # ---------------- binding self-test: corrupted records must be rejected
@@ -415,7 +553,7 @@ def check(pid, tier):
     del c4["bk"][-1], c4["wk"][-1]
     for j in range(len(c4["nb"])):
         del c4["nb"][j][-1], c4["gv"][j][-1]
-    _, b2 = ftable.validate_records("BShellsRec.tla", ftable.REC_CFG, [c1, c2, c3, c4, r0], "c22_selftest")
+    _, b2 = ftable.validate_records("BShellsRec.tla", ftable.REC_CFG, [c1, c2, c3, c4, r0], scratch.name("c22_selftest"))
     want = {0: "k_plus_b", 1: "complete", 2: "k_plus_b", 3: "neg_closed"}
     for j, cl in want.items():
         if cl not in b2.get(j, []):
@@ -423,6 +561,9 @@ def check(pid, tier):
     if 4 in b2:
         raise MachineryError(f"binding self-test failed: the uncorrupted record is rejected: {b2[4]}")
     rep.part("binding_selftest", corrupted_records_rejected={str(k): v for k, v in b2.items()})
+
+    # ---------------- the calls on which the code found no stencil: known finding only where the model of the code's rule predicts it
+    resolve_failures(rep, failures, scratch)
 
     # ---------------- numeric only: random real lattices
     nrand = 60 if thorough else 20
@@ -438,24 +579,132 @@ def check(pid, tier):
         kpts = mesh_points(N)
         rng.shuffle(kpts)
         kptirr = sorted(rng.sample(range(len(kpts)), min(len(kpts), 4)))
+        kg = np.array(kpts) + np.array([[rng.randint(-1, 1) for _ in range(3)] for _ in kpts]) * np.array(N)[None, :]
+        kred = kg / np.array(N, dtype=float)[None, :] + np.array([[rng.uniform(-1e-9, 1e-9) for _ in range(3)] for _ in kpts])
+        rep.case(("random_lattice", N, round(float(B[0, 0]), 6)))
         try:
-            bkv = run_from_kpoints(B, N, kpts, kptirr)
-        except RuntimeError as e:
-            if "Could not find a complete set" in str(e):
+            bkv = code.from_kpoints(B, N, kred, kptirr, 2, RANDOM_TOL)
+        except Exception as ex:  # noqa
+            try:
+                code.find_bk_vectors(B, N, 2, RANDOM_TOL)
+            except Exception:  # noqa
                 nr_raise += 1
                 continue
-            raise
+            rep.violation("from_kpoints:raised", dict(recip_lattice=B.tolist(), mp_grid=list(N), error=repr(ex)[:300], kpoints_red=kred.tolist(),
+                                                      kptirr=kptirr, what="find_bk_vectors alone succeeds on the same input"))
+            continue
         nr_ok += 1
         num = numeric_clauses(B, N, bkv.wk, bkv.bk_grid, bkv.bk_cart)
         for k in worst:
             worst[k] = max(worst[k], num[k])
         okn = True
-        kg = np.array(kpts)
         for ik in kptirr:
             for ib in range(len(bkv.wk)):
                 if np.any(kg[ik] + bkv.bk_grid[ib] != kg[bkv.neighbours[ik][ib]] + bkv.G[ik][ib] * np.array(N)):
                     okn = False
-        if num["complete"] > 1e-8 or num["neg"] > 1e-8 or not okn:
+        if num["complete"] > 1e-8 or num["neg"] > 1e-8 or num["bk_cart"] > 1e-9 or not okn:
             rep.violation("from_kpoints:random_lattice", dict(recip_lattice=B.tolist(), mp_grid=list(N), deviations=num, neighbours_ok=okn))
-    rep.part("numeric_only", random_lattices=nrand, stencils=nr_ok, raised_no_stencil=nr_raise, worst_deviation=worst, tolerance=1e-8)
+    if nr_raise > nrand // 2:
+        rep.violation("find_bk_vectors:no_stencil_found:random_lattices",
+                      dict(what="find_bk_vectors finds no stencil on most generic lattices (cond < 6, meshes <= 4)", failed=nr_raise, of=nrand))
+    rep.part("numeric_only", random_lattices=nrand, stencils=nr_ok, raised_no_stencil=nr_raise, worst_deviation=worst, tolerance=1e-8,
+             bk_complete_tol_handed_to_the_code=RANDOM_TOL)
+    skipped.report(rep)
     return rep.finish()
+
+
+def reorder_probe(rep, skipped, out, rng):
+    """BKVectors.reorder_mmn on a copy whose b-vectors are permuted -> record of the re-ordered copy (or None)"""
+    bkv = out["bkv"]
+    nnb = len(bkv.wk)
+    p = list(range(nnb))
+    rng.shuffle(p)
+    try:
+        other = copy.deepcopy(bkv)
+        other.bk_grid = np.array(bkv.bk_grid)[p]
+        other.bk_cart = np.array(bkv.bk_cart)[p]
+        other.wk = np.array(bkv.wk)[p]
+        for ik in list(other.neighbours.keys()):
+            other.neighbours[ik] = np.array(bkv.neighbours[ik])[p].copy()
+            other.G[ik] = np.array(bkv.G[ik])[p].copy()
+
+        class Mmn:
+            pass
+        mmn = Mmn()
+        mmn.data = {ik: np.array(p, dtype=float)[:, None] * np.ones((1, 2)) for ik in other.neighbours.keys()}
+        fn = getattr(bkv, "reorder_mmn")
+    except (AttributeError, TypeError) as ex:
+        skipped.add("reorder_mmn", ex)
+        return None
+    rep.case(("reorder_mmn", out["info"]["lattice"], tuple(out["info"]["mp_grid"])))
+    try:
+        quiet_call(fn, other, mmn)
+    except (AttributeError, TypeError) as ex:
+        skipped.add("reorder_mmn", ex)
+        return None
+    except Exception as ex:  # noqa
+        rep.violation("raises:reorder_mmn:" + type(ex).__name__, dict(out["info"], permutation=p, error=repr(ex)[:300]))
+        return None
+    for ik, d in mmn.data.items():
+        if np.any(np.array(d)[:, 0] != np.arange(nnb)):
+            rep.violation("reorder_mmn:data_order", dict(out["info"], permutation=p, ik=int(ik), got=np.array(d)[:, 0].tolist()))
+            break
+    other_w = copy.copy(other)
+    other_w.wk = np.array(other.wk) * out["scale"] ** 2
+    L = out["L"]
+    rec, problems = record_of(L["G"], L["gs"], tuple(out["info"]["mp_grid"]), out["info"]["search_supercell"], other_w, out["kint"], out["irr"],
+                              fn="reorder_mmn")
+    for pr in problems:
+        rep.violation("reorder_mmn:" + pr, dict(out["info"], permutation=p))
+    if problems or np.any(np.array(other.bk_grid) != np.array(bkv.bk_grid)):
+        if not problems:
+            rep.violation("reorder_mmn:bk_order", dict(out["info"], permutation=p))
+        return None
+    return rec
+
+
+def resolve_failures(rep, failures, scratch):
+    """the code raised 'no complete set' although the specification finds a stencil.  It is the recorded known finding only if
+    the specification's model of the rule the code applies ('latt' for an integer Cartesian basis as given, 'rank3' for a
+    rotated basis) finds none either on that lattice/mesh; anything else is a new failure"""
+    if not failures:
+        rep.part("no_stencil", calls=0)
+        return
+    need = {}
+    for f in failures:
+        if f["rule"] is not None:
+            need.setdefault(f["ss"], set()).add((f["lattice"], tuple(f["mesh"]), f["rule"]))
+    outcome = {}
+    for ss, trip in sorted(need.items()):
+        lats = sorted({t[0] for t in trip})
+        ms = sorted({t[1] for t in trip})
+        rules = sorted({t[2] for t in trip} | {"pair"})
+        only = {f"{lat}:{100 * N[0] + 10 * N[1] + N[2]}" for lat, N, _ in trip}
+        st = run_mc(scratch.name(f"c22_code_rule_ss{ss}"), mc_cfg(ms, lats, rules, only=only, ssc=ss,
+                                                                   invariants=["SelFunctional", "SelNegClosed", "SelWhole", "SelComplete", "SelNeighbours", "SelShape"]))
+        ftable.spec_violation(rep, st, f"c22_code_rule_ss{ss}")
+        rep.add_tlc(f"c22_code_rule_ss{ss}", st)
+        for (lat, N, rule), states in runs_of(st).items():
+            outcome[(ss, lat, N, rule)] = states[-1]["st"]["pc"]
+    predicted, unpredicted, too_small = [], [], []
+    for f in failures:
+        k = (f["ss"], f["lattice"], tuple(f["mesh"]))
+        spec_finds = outcome.get(k + ("pair",))
+        model = outcome.get(k + (f["rule"],)) if f["rule"] else None
+        det = dict(what="BKVectors.find_bk_vectors raised although the specification proves that the search box contains a complete set of "
+                        "shells (the Wannier90 procedure finds it)", lattice=f["lattice"], mp_grid=list(f["mesh"]), search_supercell=f["ss"],
+                   recip_lattice=f["recip_lattice"], error=f["error"], call=f["where"], model_rule=f["rule"], model_of_code=model,
+                   specification=spec_finds)
+        if spec_finds == "fail" and f["ss"] != 2:
+            # a non-default search box that contains no complete set of shells at all: not a failure of the code
+            too_small.append(f"{f['lattice']}:{'x'.join(str(int(n)) for n in f['mesh'])}:ss{f['ss']}")
+        elif spec_finds == "done" and model == "fail":
+            predicted.append(f"{f['lattice']}:{'x'.join(str(int(n)) for n in f['mesh'])}")
+            rep.violation(KEY_KNOWN, det)
+        else:
+            unpredicted.append(f"{f['lattice']}:{'x'.join(str(int(n)) for n in f['mesh'])}")
+            rep.violation(KEY_UNPRED, det)
+    rep.part("no_stencil", calls=len(failures), predicted_by_model_of_code=sorted(set(predicted)), unpredicted=sorted(set(unpredicted)),
+             search_box_contains_no_complete_set=sorted(set(too_small)),
+             note="'latt' / 'rank3' model w90files.bkvectors.is_parallel_shell as it is called by find_bk_vectors (mesh coordinates against a "
+                  "Cartesian projector); run only for the lattice/mesh pairs on which the code failed")
